@@ -865,6 +865,8 @@ impl DiskIO {
                     crate::verif::emit_data("w", *sector, 1, unsafe {
                         std::slice::from_raw_parts(buffer.as_ptr(), buffer.len())
                     });
+                    #[cfg(feoxdb_verif)]
+                    crate::verif::emit("ubp", &[], buffer.as_ptr() as u64, buffer.len() as u64, i as u64);
                     buffers.mark_in_flight(i);
                     if unsafe { sq.push(&write_e) }.is_err() {
                         buffers.mark_unqueued(i);
